@@ -1,5 +1,7 @@
 import BpProofs.SrcTie
+import BpProofs.SrcTieDump
 import BpProofs.Props.C16
+import BpProofs.Props.C09
 import BpProofs.Len
 /-
   C09, tied to the SOURCE: `__len__` is a second, hand-duplicated copy of the serialisation
@@ -8,6 +10,13 @@ import BpProofs.Len
   `_serialize_single`, the length prefix of a length-delimited field — is translated from
   the Python AST of the working tree on every run (BpProofs/Gen/SrcCodec.lean) and proved to
   agree pairwise, for every field number and every payload.
+
+  The WALK itself — the body of the field loop of `__len__`, a hand-made copy of the body of
+  the field loop of `dump` (skip on AttributeError / None, the skip test against the default,
+  packed list / one record per item `or 2` / map entries / single value) — is translated too
+  (harness/extract_srcdump.py → BpProofs/Gen/SrcDump.lean, `Src.len_field` / `Src.dump_field`)
+  and proved equal to the model's `lenSlot` / `dumpSlot` (`src_len_field`); the two translated
+  copies agree on every field, every value, both flags (`src_field_len_agrees`).
 -/
 namespace Bp.C09
 open Bp Bp.Py
@@ -82,5 +91,37 @@ theorem src_frame_len_agrees (num fuel : Nat) (t : PType) (value : Bytes) (se wr
       (Src.serialize_frame fuel (num : Int) t value se wraps).bind fun out => .ok ((out.length : Nat) : Int) := by
   rw [src_len_frame, src_serialize_frame num fuel t value se wraps hf, lenFrame_eq]
   cases frame num t value se wraps <;> rfl
+
+/-- **the per-field size computation of `Message.__len__` as written is the model's `lenSlot`**:
+    for every field descriptor, every raw slot value, both flags and every running total, one
+    iteration of the field loop adds exactly `lenSlot S f hid sel v` and raises exactly when it
+    raises.  Same reading and guards as `C06.src_dump_field`. -/
+theorem src_len_field (S : Schema) (hS : WfSchemaOpt S) (f : FieldD) (hid sel : Bool) (v : Val) (size : Int)
+    (hok : SrcTieDump.dynOk f v = true) :
+    Src.len_field S (dumpVal S) f (Py.getattrField S f hid v) sel size
+      = Py.ofR ((lenSlot S f hid sel v).map fun (n : Nat) => size + (n : Int)) :=
+  SrcTieDump.len_field_eq S hS f hid sel v size hok
+
+/-- **the two hand-duplicated loop bodies as written agree**: on every field, every value and
+    both flags, the iteration of `__len__` adds to `size` exactly the number of bytes the
+    iteration of `dump` appends to the stream, and raises the same exception when that raises
+    (through the model theorem `field_len_eq`) -/
+theorem src_field_len_agrees (S : Schema) (hS : WfSchemaOpt S) (f : FieldD) (hid sel : Bool) (v : Val)
+    (stream : Bytes) (size : Int) (hok : SrcTieDump.dynOk f v = true) :
+    Src.len_field S (dumpVal S) f (Py.getattrField S f hid v) sel size =
+      (Src.dump_field S (dumpVal S) f (Py.getattrField S f hid v) sel stream).bind fun out =>
+        .ok (size + ((out.length - stream.length : Nat) : Int)) := by
+  rw [src_len_field S hS f hid sel v size hok, SrcTieDump.dump_field_eq S hS f hid sel v stream hok, field_len_eq]
+  cases dumpSlot S f hid sel v with
+  | error e => rfl
+  | ok b =>
+    simp only [SrcTieDump.appR_ok, SrcTieDump.res_bind_ok, map_ok, SrcTieDump.ofR_ok, List.length_append]
+    congr 2; omega
+
+/-! non-vacuity: the repaired D01 witness on the translated loop bodies — an optional string set
+    to "" is written as two bytes and counted as two -/
+def fOptStr : FieldD := { name := "s", num := 1, ty := .string, optional := true }
+example : Src.dump_field [] (dumpVal []) fOptStr (Py.getattrField [] fOptStr false (.str [])) false [] = .ok [10, 0] := by decide
+example : Src.len_field [] (dumpVal []) fOptStr (Py.getattrField [] fOptStr false (.str [])) false 5 = .ok 7 := by decide
 
 end Bp.C09
